@@ -4,6 +4,7 @@
 From Coq Require Import List ZArith Bool.
 From BiomV Require Import Base.ListUtil Base.Matrix Model.Table Model.Sparse Model.Hdf5
                           Proofs.SparseProofs Proofs.Utf8Proofs Proofs.Hdf5Proofs.
+From BiomV Require Gen.Hdf5ReadGen Proofs.GenBridgeHdf5ReadProofs.
 Import ListNotations.
 
 (* [core] Every table state (ids, matrix held as CSR or CSC in ANY well-formed layout: unsorted
@@ -112,3 +113,18 @@ Theorem from_hdf5_written : forall st genby date ax,
   = ROk (reloaded st genby date).
 Proof. exact Hdf5Proofs.from_hdf5_written. Qed.
 Print Assumptions from_hdf5_written.
+
+(* ---- translator tie (DESIGN 3.1 T23): the reader regenerated from Table.from_hdf5 by tools/py2v_h5r
+   (Gen/Hdf5ReadGen.v, h5py reads = the accessors of Gen/H5ReadPrelude.v) IS the hand-written reader
+   used by every theorem above, for every file tree and both axis names *)
+Theorem from_hdf5_is_source : forall f ax,
+  BiomV.Gen.Hdf5ReadGen.from_hdf5_gen f (axis_name ax) = from_hdf5 f ax.
+Proof. exact BiomV.Proofs.GenBridgeHdf5ReadProofs.from_hdf5_is_source. Qed.
+Print Assumptions from_hdf5_is_source.
+
+(* any other axis name is refused with the UnknownAxisError code before anything is read *)
+Theorem from_hdf5_unknown_axis_is_source : forall f a,
+  lz_eqb a b_sample = false -> lz_eqb a b_observation = false ->
+  BiomV.Gen.Hdf5ReadGen.from_hdf5_gen f a = RErr E_UNKNOWN.
+Proof. exact BiomV.Proofs.GenBridgeHdf5ReadProofs.from_hdf5_unknown_axis_is_source. Qed.
+Print Assumptions from_hdf5_unknown_axis_is_source.
